@@ -46,6 +46,9 @@ def main():
             print("SUMMARY inconclusive: %s" % " ".join(inc))
     finally:
         shutil.rmtree(d, ignore_errors=True)
+        sys.path.insert(0, VERIF)
+        from snowlint import build
+        build.drop_scratch_facts(d)
 
 
 if __name__ == "__main__":
